@@ -46,7 +46,7 @@ def level1(leaves, cond_leaves):
     for x, y, z in itertools.product(leaves[:3] + leaves[4:5], repeat=3):
         out.append(ExprOp("+", x, y, z))
     for x in leaves:
-        out += [ExprOp("-", x), ExprSlice(x, 0, 4), ExprMem(x, 8), ExprCompose(x)]
+        out += [ExprOp("-", x), ExprSlice(x, 0, 4), ExprSlice(x, 4, 8), ExprSlice(x, 2, 4), ExprMem(x, 8), ExprMem(x, 16), ExprCompose(x)]
         for y in leaves[:3] + leaves[4:]:
             for c in cond_leaves:
                 out.append(ExprCond(c, x, y))
